@@ -34,6 +34,8 @@ def run(rep, tier, M=None):
     k2(rep, M)
     from . import c14_k1
     c14_k1.k1(rep, M)
+    from . import common as _common
+    _common.guarded(rep, "C14.K1b", c14_k1.k1b, rep, M)
     rep.extra["programs"] = len(G.prules) + len(G.lrules)
     rep.extra["disagreements_checked"] = sum(1 for o in rep.obs if o.rule in ("C14.A3", "C14.A4"))
     return M
